@@ -239,6 +239,46 @@ def work_mutations(chunk, st):
     st.sample({'reply_mutation': [chunk[0][0], list(chunk[0][1]), chunk[0][2], chunk[0][3]]}, cap=8)
 
 
+# ---- policy audits of a peer whose group exchange is offered but never measured (every modulus probe refused, closed, stalled or garbled):
+# every policy shape that mentions the modulus ends through a documented status
+def policy_unmeasured_tasks():
+    out = []
+    G256, G1 = 'diffie-hellman-group-exchange-sha256', 'diffie-hellman-group-exchange-sha1'
+    for how in ('refuses-every-request', 'closes-after-request', 'stalls-after-request', 'garbles-the-group', 'probe-connections-refused'):
+        for larger in (False, True):
+            for sizes in ({G256: 2048}, {G256: 3072, G1: 2048}, None):
+                for extra in ((), ('-j',), ('-T',)):
+                    out.append((how, larger, sizes, extra))
+    return out
+
+
+def work_policy_unmeasured(chunk, st):
+    import os
+    G256, G1 = 'diffie-hellman-group-exchange-sha256', 'diffie-hellman-group-exchange-sha1'
+    for how, larger, sizes, extra in chunk:
+        srv = peer.Server(label='pu', kex=['curve25519-sha256', G256, G1], key=['ssh-ed25519'], host_keys=peer.standard_host_keys(['ssh-ed25519']),
+                          gex=peer.GexPolicy([] if how == 'refuses-every-request' else [2048], peer.STRICT))
+        faults = {}
+        if how != 'refuses-every-request':
+            f = {'closes-after-request': (2, ('trunc_close', 0)), 'stalls-after-request': (2, ('trunc_stall', 0)), 'garbles-the-group': (2, ('garbage', 60, 3)), 'probe-connections-refused': (-1, ('refuse',))}[how]
+            for c in range(2, 40):
+                faults[('pu', c, f[0])] = f[1]
+        path = H.tmp_path('c09-unmeasured-%d.txt' % os.getpid())
+        lines = ['name = "unmeasured"', 'version = 1', 'allow_larger_keys = %s' % ('true' if larger else 'false'), 'key exchanges = curve25519-sha256, %s, %s' % (G256, G1)]
+        if sizes:
+            lines.append('dh_modulus_sizes = %s' % json.dumps(sizes))
+        with open(path, 'w') as fh:
+            fh.write('\n'.join(lines) + '\n')
+        opts = ['-n', '--skip-rate-test', '-P', path] + [o for o in extra if o != '-T']
+        res = H.audit(srv, opts=opts, faults=faults, via_targets_file='-T' in extra)
+        root = ('policy-unmeasured', how, larger, json.dumps(sizes, sort_keys=True), extra)
+        st.execution(res.world, outcome=('policy-unmeasured', res.status, bool(res.hang)), root=root, nontrivial=root)
+        if res.hang or res.exc or res.status not in (0, 1, 2, 3):
+            st.violation('policy-audit:unmeasured-modulus:crash-hang-or-status-%s:%s' % (res.status, F._trace_site(res.stdout + res.stderr)),
+                         {'server': how, 'allow_larger_keys': larger, 'dh_modulus_sizes': sizes, 'options': list(extra), 'status': res.status, 'hang': res.hang, 'exc': res.exc, 'stdout_tail': res.stdout[-300:]})
+    st.sample({'policy_unmeasured': [chunk[0][0], chunk[0][1]]}, cap=4)
+
+
 # environment answers around the listening socket of a client audit
 def check_client_environment(st):
     import socket as _s
@@ -330,6 +370,7 @@ def run(tier, seed):
     check_client_environment(st)
     check_client_timing(st)
     par.pmap(work_banner, banner_content_tasks(), stats=st, chunk=8)
+    par.pmap(work_policy_unmeasured, policy_unmeasured_tasks(), stats=st, chunk=6)
     muts = mutation_tasks(tier)
     par.pmap(work_mutations, muts, stats=st, chunk=40)
     st.extra['reply_mutations'] = len(muts)
